@@ -14,16 +14,16 @@ import (
 )
 
 type Program struct {
-	Dir    string
-	Pkgs   []*packages.Package
-	SSA    *ssa.Program
-	Fset   *token.FileSet
-	Module string
-	Funcs  map[string]*ssa.Function // key -> function (see funcKey)
-	ByPkg  map[string]*ssa.Package
-	UserFields map[string]string
-	GlobalFuncs map[string]*ssa.Function // package-level func variables initialised to a function
-	GlobalConsts map[string]*ssa.Const   // package-level variables (and struct fields) initialised to constants
+	Dir          string
+	Pkgs         []*packages.Package
+	SSA          *ssa.Program
+	Fset         *token.FileSet
+	Module       string
+	Funcs        map[string]*ssa.Function // key -> function (see funcKey)
+	ByPkg        map[string]*ssa.Package
+	UserFields   map[string]string
+	GlobalFuncs  map[string]*ssa.Function // package-level func variables initialised to a function
+	GlobalConsts map[string]*ssa.Const    // package-level variables (and struct fields) initialised to constants
 }
 
 func LoadProgram(dir string, tags string) (*Program, error) {
